@@ -628,6 +628,10 @@ func writeEvidence(c *Check, tier string, base uint64, st *Stats, wall float64, 
 	}
 }
 
+// childViolation prefixes the line by which the child of a ".fatal" replay reports an
+// ordinary violation of the same property to its parent.
+const childViolation = "CHILD-VIOLATION "
+
 // replayMain re-executes a stored scenario in this (fresh) process.
 func replayMain(path string) int {
 	b, err := os.ReadFile(path)
@@ -655,6 +659,17 @@ func replayMain(path string) int {
 			fmt.Printf("VIOLATION property=%s replay=%s\n  rule=%s signature=%s\n  the run kills the process executing it: %s\n", rp.Property, path, rp.Rule, rp.Sig, firstLine(string(out)))
 			return 1
 		}
+		// A worker dies of what it holds when the run starts plus what the run allocates; a fresh
+		// process holds nothing, so the same run may survive here. If it then violates the property
+		// by an ordinary rule (not an open known finding) the file still reproduces a violation.
+		if ee, ok := err.(*exec.ExitError); ok && ee.ExitCode() == 1 {
+			for _, l := range strings.Split(string(out), "\n") {
+				if strings.HasPrefix(l, childViolation) {
+					fmt.Printf("VIOLATION property=%s replay=%s\n  rule=%s signature=%s\n  the run did not kill a fresh process; in it: %s\n", rp.Property, path, rp.Rule, rp.Sig, strings.TrimPrefix(l, childViolation))
+					return 1
+				}
+			}
+		}
 		fmt.Printf("replay: the run did not kill its process this time (exit %v)\n%s\n", err, tail(string(out), 400))
 		return 0
 	}
@@ -678,6 +693,17 @@ func replayMain(path string) int {
 			fmt.Printf("VIOLATION property=%s replay=%s\n  rule=%s signature=%s\n  %s\n", rp.Property, path, v.Rule, v.Sig, v.Msg)
 			return 1
 		}
+	}
+	if os.Getenv("VERIF_REPLAY_CHILD") != "" {
+		known := loadKnown()
+		for _, v := range vs {
+			if matchKnown(known, rp.Property, v) == nil {
+				fmt.Printf("%srule=%s signature=%s %s\n", childViolation, v.Rule, v.Sig, firstLine(v.Msg))
+				return 1
+			}
+		}
+		fmt.Println("replay: no violation reproduced")
+		return 0
 	}
 	if len(vs) > 0 {
 		fmt.Printf("replay produced different violations (%d), first: rule=%s signature=%s %s\n", len(vs), vs[0].Rule, vs[0].Sig, vs[0].Msg)
